@@ -156,9 +156,10 @@ def drive(g, tid=0, cap=600, seed=0, encoders=('complete', 'fast'), redecode=Tru
                 en['rows'] = [{'x': xq(dvs, list(X[i])), 'act': [bool(a) for a in A[i]]} for i in range(X.shape[0])]
             if enc == 'complete':   # counts and statistics are only claimed for the complete encoder (C04)
                 en['n_valid'] = int(p.get_n_valid_designs())
-                en['n_declared'] = int(p.get_n_design_space())
+                nd = int(p.get_n_design_space())
+                en['n_declared'] = nd if nd <= 1000000 else -1      # TLC integers are 32-bit: larger spaces are not compared
                 r = p.get_imputation_ratio(include_cont=False)
-                en['ratio_ppm'] = int(round(r*1000000)) if math.isfinite(r) and r < 2000 else -2
+                en['ratio_ppm'] = int(round(r*1000000)) if math.isfinite(r) and r < 2000 and nd <= 2000 else -2
         except Exception as e:
             en['err'] = type(e).__name__
             en['msg'] = str(e)[:200]
